@@ -74,7 +74,7 @@ impl GenCfg {
 
 pub const FAMILIES: [&str; 16] = [
     "accum", "munch", "lang", "rulesets", "rctx", "eoi", "loc", "actions", "recover", "progress", "realistic",
-    "class", "prec", "bigclass", "mixed", "eoimid",
+    "class", "prec", "bigclass", "mixed", "eoictx",
 ];
 
 pub fn family_cfg(family: &str, rng: &mut Rng) -> GenCfg {
@@ -133,17 +133,18 @@ pub fn family_cfg(family: &str, rng: &mut Rng) -> GenCfg {
             c.p_unnamed = 30;
             c.w_act = [1, 2, 8, 1];
         }
-        "eoimid" => {
-            // `$` that is not the last factor of a rule, and contexts in which `$` repeats
+        "eoictx" => {
+            // contexts in which `$` repeats, sits under a repetition or is followed by further
+            // factors (C04: "any regex may serve as a context"); rules keep `$` at the tail
             c.letters = vec!['a', 'b'];
             c.n_sets = (1, 3);
             c.rules = (1, 4);
             c.depth = 2;
-            c.p_eoi_rule = 45;
-            c.p_eoi_mid = 75;
-            c.p_ctx = 30;
-            c.p_eoi_ctx = 50;
-            c.p_eoi_ctx_multi = 70;
+            c.p_eoi_rule = 25;
+            c.p_eoi_mid = 0;
+            c.p_ctx = 55;
+            c.p_eoi_ctx = 60;
+            c.p_eoi_ctx_multi = 75;
             c.p_switch = 30;
             c.p_unnamed = 30;
             c.w_act = [1, 2, 8, 1];
